@@ -3,3 +3,4 @@ pub mod disk;
 pub mod store_model;
 pub mod rec_store;
 pub mod squares;
+pub mod stream;
